@@ -3,3 +3,8 @@ import Heathcliff.Props.C06
 #print axioms HC.C06.forms_agree
 #print axioms HC.C06.forms_table_size
 #print axioms HC.C06.upward_refused
+#print axioms HC.C06.gen_ctValid_split
+#print axioms HC.C06.gen_ct_is_metadata_valid_for_eq
+#print axioms HC.C06.gen_ctValid_eq
+#print axioms HC.C06.gen_ct_is_metadata_valid_for_refuses
+#print axioms HC.C06.gen_ct_is_buffer_valid_eq
